@@ -20,8 +20,8 @@ def sh(cmd, cwd):
 def demo():
     d = os.path.join(wt, "demo")
     if os.path.exists(os.path.join(d, "demo.sh")):
-        rc, out = sh("cargo build --offline -q 2>&1 | tail -3; sh demo/demo.sh", wt)
-        return rc, out, "cargo build --offline && sh demo/demo.sh"
+        rc, out = sh("cargo build --offline -q 2>&1 | tail -3; bash demo/demo.sh", wt)
+        return rc, out, "cargo build --offline && bash demo/demo.sh"
     scripts = [f for f in os.listdir(d) if f.endswith(".sh") or f.endswith(".py")]
     if scripts and not os.path.exists(os.path.join(d, "Cargo.toml")):
         s = scripts[0]
